@@ -236,7 +236,9 @@ def get_godambe(func_ex, grid_pts, all_boot, p0, data, eps, log=False,
     # cU is a column vector
     cU = numpy.zeros((len(p0),1))
     for ii, (boot,theta_adjust) in enumerate(zip(all_boot, boot_theta_adjusts)):
-        boot = Spectrum(boot)
+        # Keep the mask each bootstrap was given (as is done for data); the
+        # constructor's default would mask the corner entries in addition.
+        boot = Spectrum(boot, mask_corners=False)
         if not log:
             grad_temp = get_grad(func, p0, eps, args=[boot, theta_adjust])
         else:
